@@ -35,6 +35,11 @@ def check(P, R):
     R.rule('C13.e', 'in-memory budget precedes every read', floor=7)
     R.rule('C13.f', 'one buffer per read in both readers', floor=2)
 
+    from . import c12 as _c12
+    _c12.check_size_line_cap(P, R, 'C13.f')
+    from . import c04
+    c04.check_reader_premise(P, R, 'C13.a', 'the size that is compared with the limit is the size of the whole declared body: a reader that stops early on a short read '
+                             'lets an oversized body through truncated')
     f = P.func(f'{BM}:_body_read')
     g, rd = f.cfg, f.rd
     fors = [n for n in walk_shallow(f.node) if isinstance(n, ast.For)]
@@ -112,8 +117,14 @@ def check(P, R):
     R.ob('C13.c', f, loop, bool(rebinds), text='switch to a temporary file inside the part loop', detail='' if rebinds else
          'the buffer never moves to a temporary file while parts arrive: a large body stays in memory')
     for d in rebinds:
-        has_tmp = any(isinstance(x, ast.Call) and call_attr(x) in ('TemporaryFile', 'NamedTemporaryFile', 'SpooledTemporaryFile')
-                      for x in (rd.closure_nodes(d.value, d.node, follow_mut=False) if d.value is not None else ast.walk(d.stmt)))
+        cl_tmp = list(rd.closure_nodes(d.value, d.node, follow_mut=False) if d.value is not None else ast.walk(d.stmt))
+        has_tmp = any(isinstance(x, ast.Call) and call_attr(x) in ('TemporaryFile', 'NamedTemporaryFile') for x in cl_tmp)
+        spooled = [x for x in cl_tmp if isinstance(x, ast.Call) and call_attr(x) == 'SpooledTemporaryFile']
+        for x in spooled:
+            R.ob('C13.c', f, x, False, text=f'{short(x)} as the spill target', detail=
+                 'a SpooledTemporaryFile keeps its content in memory until max_size is exceeded (never, with the default max_size=0): the body that was to be moved '
+                 'to disk stays in memory whatever its size', why='bodies larger than the in-memory threshold are kept on disk', key_extra='spooled')
+        has_tmp = has_tmp or bool(spooled)
         test = enclosing(d.stmt, ast.If)
         ok, det = False, 'the switch is not under a size test'
         if test is not None and has_tmp:
@@ -293,9 +304,25 @@ def check_memory_budget(P, R):
     check_get_body_string(P, R, 'C13.e')
 
 
+def check_rewind(P, R, rid, why):
+    """the cached body buffer is rewound before _get_body_string reads it (the buffer is shared by every accessor of the request)"""
+    fs = P.func(f'{BM}:BodyMixin._get_body_string')
+    gs = fs.cfg
+    reads = [c for c in walk_shallow(fs.node) if isinstance(c, ast.Call) and (T.resolved_callee(fs, c) or '').split('.')[-1] == 'read' and c.args]
+    seeks = [gs.node_of_stmt(c)[0] for c in walk_shallow(fs.node) if isinstance(c, ast.Call) and call_attr(c) == 'seek' and c.args and is_const(c.args[0], 0)
+             and len(c.args) == 1]
+    for c in reads:
+        cn = gs.node_of_stmt(c)[0]
+        ok = bool(seeks) and gs.must_pass(gs.entry, cn, seeks)
+        R.ob(rid, fs, c, ok, text=f'{short(c)} after <body>.seek(0)', detail='' if ok else
+             'the buffered body is read from wherever an earlier accessor left it (request.body is one cached object): after request.body.read() the form / '
+             'JSON text is empty or cut', why=why, key_extra='rewind')
+
+
 def check_get_body_string(P, R, rid):
     fs = P.func(f'{BM}:BodyMixin._get_body_string')
     gs, rs = fs.cfg, fs.rd
+    check_rewind(P, R, rid, 'what is parsed is the whole body')
     reads = [c for c in walk_shallow(fs.node) if isinstance(c, ast.Call) and (T.resolved_callee(fs, c) or '').split('.')[-1] == 'read']
     reads = [c for c in reads if c.args]
     R.require(reads, '_get_body_string: no sized read')
